@@ -457,9 +457,28 @@ func symConv(fr *frame, tdst, tsrc types.Type, x *symv) value {
 // symstr is a string of concrete length whose bytes are uint8 or *symv (8-bit).
 type symstr []value
 
+// poisonByte is the content of a string that stands for the formatted text of a symbolic number
+// (see the formatting stubs): it may be concatenated, copied and printed, but any computation on
+// its bytes or its length ends the path as undecided.
+type poisonByte struct{}
+
+func poisonStr() symstr { return symstr{poisonByte{}} }
+
+func hasPoison(s symstr) bool {
+	for _, b := range s {
+		if _, ok := b.(poisonByte); ok {
+			return true
+		}
+	}
+	return false
+}
+
 func byteTerm(v value) string {
 	if s, ok := v.(*symv); ok {
 		return s.term
+	}
+	if _, ok := v.(poisonByte); ok {
+		panic(engineFault{"the formatted text of a symbolic number is used in a computation (formatting is stubbed)"})
 	}
 	return bvLit(uint64(v.(uint8)), 8)
 }
